@@ -7,9 +7,13 @@ import (
 	"encoding/hex"
 	"encoding/json"
 	"fmt"
+	"math/rand"
 	"os"
 	"reflect"
+	"runtime"
 	"strings"
+	"sync"
+	"time"
 )
 
 type draw struct {
@@ -68,19 +72,34 @@ func load() {
 	}
 }
 
+var drawMu sync.Mutex
+
+// lenient: harnesses whose goroutines draw values concurrently (engine flag -sched) consume the model's draws in
+// whatever order the Go scheduler produces; a draw the model does not have is the zero value.
+var lenient = os.Getenv("VERIF_LENIENT") != ""
+
 func next(kind string) draw {
 	load()
+	drawMu.Lock()
+	defer drawMu.Unlock()
 	for pos < len(mdl.Draws) && mdl.Draws[pos].S {
 		pos++
 	}
 	if pos >= len(mdl.Draws) {
+		if lenient {
+			return draw{K: kind}
+		}
 		panic(divergence{fmt.Sprintf("model exhausted at draw %d (want %s)", pos, kind)})
 	}
 	d := mdl.Draws[pos]
-	pos++
 	if d.K != kind {
+		if lenient {
+			return draw{K: kind}
+		}
+		pos++
 		panic(divergence{fmt.Sprintf("draw %d: model has %q, harness wants %q", pos-1, d.K, kind)})
 	}
+	pos++
 	return d
 }
 
@@ -260,6 +279,9 @@ func UFBytes(name string, n int, args ...any) []byte {
 // the driver parses.
 func Replay(f func()) {
 	load()
+	drawMu.Lock()
+	pos = 0 // a test binary may run the replay several times (-count)
+	drawMu.Unlock()
 	defer func() {
 		r := recover()
 		for _, o := range observed {
@@ -335,4 +357,21 @@ func StubBytes(n int) []byte {
 		b[i] = byte(d.Vs[i])
 	}
 	return b
+}
+
+// Sched / Settle natively: the Go scheduler decides; Settle waits long enough for the short harness goroutines
+// to finish or block.
+func Sched() {
+	runtime.Gosched()
+	time.Sleep(time.Duration(rand.Intn(4)) * 300 * time.Microsecond)
+}
+
+func Settle() { time.Sleep(50 * time.Millisecond) }
+
+var atomicMu sync.Mutex
+
+func Atomic(f func()) {
+	atomicMu.Lock()
+	defer atomicMu.Unlock()
+	f()
 }
